@@ -19,7 +19,7 @@ RULE = (
     "threshold-hugging counts (overall 10%: floor(0.1 n) - 1 .. + 1; one calendar month: 2/3/4 days; hourly: hours) x negative "
     "values x zeros x an extreme value x UTC or local index x frame or from_series entry x daily or hourly temperature feed x daily or "
     "hourly meter readings (missing usage days keep 0/10/12 of 24 readings, some valid days 20 of 24). "
-    "First and last day are valid in the main class. Oracle: the constructor returns and the set of disqualification names "
+    "First and last day are valid in the main class. One hourly case in three also gives the frame handed out by the data object (data.df) back to the class, as it is and with one more temperature and usage reading lost: the verdict must still be that of the measurements. Oracle: the constructor returns and the set of disqualification names "
     "equals the set computed by an independent restatement of the criteria; at a boundary where the statement leaves a "
     "counting detail open (fractional DST days) both verdicts are accepted; the warnings extreme_values_detected, utc_index and "
     "unable_to_confirm_daily_temperature_sufficiency appear exactly when triggered and removing the trigger does not change the "
@@ -385,53 +385,63 @@ def judge_hourly(c, rec):
         rec.violation("%s/constructor-raises/%s" % (K, bkt), c, "%s: %s" % (type(e).__name__, short(e, 160)))
         rec.case(c, True, cls)
         return
-    got = set(w.qualified_name for w in data.disqualification)
-    # reference on the input frame (complete hourly index of whole days, so the data class adds no rows)
-    obs = df["observed"].copy()
-    if c["no_usage"]:
-        obs[:] = np.nan
-    T = df["temperature"]
-    vu, vt = obs.notna().values, T.notna().values
     base = c["baseline"]
-    must, may = set(), set()
-    usage_counts = base  # reporting verdicts rest on weather only
-    both = (vu & vt) if usage_counts else vt
-    full_rows = (vu & vt & (df["ghi"].notna().values if "ghi" in df else True)) if (base or vu.any()) else vt
-    fv = np.nonzero(full_rows)[0]
-    if len(fv) == 0:
+
+    def reference(df):
+        """(must, may) for one raw input frame, or None when it holds no complete row at all"""
+        # reference on the input frame (complete hourly index of whole days, so the data class adds no rows)
+        obs = df["observed"].copy()
+        if c["no_usage"]:
+            obs[:] = np.nan
+        T = df["temperature"]
+        vu, vt = obs.notna().values, T.notna().values
+        must, may = set(), set()
+        usage_counts = base  # reporting verdicts rest on weather only
+        both = (vu & vt) if usage_counts else vt
+        full_rows = (vu & vt & (df["ghi"].notna().values if "ghi" in df else True)) if (base or vu.any()) else vt
+        fv = np.nonzero(full_rows)[0]
+        if len(fv) == 0:
+            return None
+        elapsed = df.index[fv[-1]] - df.index[fv[0]]
+        n_lo = elapsed.days + 1
+        n_hi = int(math.ceil(elapsed / pd.Timedelta(days=1) - 1e-9)) + 1
+        w = np.full(n, 1 / 24.0)
+        w[-1] = 0
+
+        def crit(mask, name):
+            s = float((mask * w).sum())
+            vals = [nv / nt < 0.9 for nv in {math.floor(s + 1e-9), s} for nt in {n_lo, n_hi}]
+            if any(vals):
+                may.add(name)
+            if all(vals):
+                must.add(name)
+
+        if base:
+            vals = [(nt > 365 or nt < 329) for nt in {n_lo, n_hi}]
+            if any(vals):
+                may.add(P + "incorrect_number_of_total_days")
+            if all(vals):
+                must.add(P + "incorrect_number_of_total_days")
+            crit(vu, P + "too_many_days_with_missing_meter_data")
+            if not c["electric"] and (obs.dropna() < 0).any():
+                must.add(P + "negative_meter_values")
+            if (pd.Series(vu).groupby(df.index.month.values).mean() < 0.9).any():
+                must.add(P + "missing_monthly_meter_data")
+        crit(both, P + "too_many_days_with_missing_data")
+        crit(vt, P + "too_many_days_with_missing_temperature_data")
+        if (pd.Series(vt).groupby(df.index.month.values).mean() < 0.9).any():
+            must.add(P + "missing_monthly_temperature_data")
+        if "ghi" in df and (df["ghi"].notna().groupby(df.index.month.values).mean() < 0.9).any():
+            must.add(P + "missing_monthly_ghi_data")
+
+        return must | set(), may | must
+
+    got = set(w.qualified_name for w in data.disqualification)
+    ref = reference(df)
+    if ref is None:
         rec.case(c, False, cls + ["no-data"])
         return
-    elapsed = df.index[fv[-1]] - df.index[fv[0]]
-    n_lo = elapsed.days + 1
-    n_hi = int(math.ceil(elapsed / pd.Timedelta(days=1) - 1e-9)) + 1
-    w = np.full(n, 1 / 24.0)
-    w[-1] = 0
-
-    def crit(mask, name):
-        s = float((mask * w).sum())
-        vals = [nv / nt < 0.9 for nv in {math.floor(s + 1e-9), s} for nt in {n_lo, n_hi}]
-        if any(vals):
-            may.add(name)
-        if all(vals):
-            must.add(name)
-
-    if base:
-        vals = [(nt > 365 or nt < 329) for nt in {n_lo, n_hi}]
-        if any(vals):
-            may.add(P + "incorrect_number_of_total_days")
-        if all(vals):
-            must.add(P + "incorrect_number_of_total_days")
-        crit(vu, P + "too_many_days_with_missing_meter_data")
-        if not c["electric"] and (obs.dropna() < 0).any():
-            must.add(P + "negative_meter_values")
-        if (pd.Series(vu).groupby(df.index.month.values).mean() < 0.9).any():
-            must.add(P + "missing_monthly_meter_data")
-    crit(both, P + "too_many_days_with_missing_data")
-    crit(vt, P + "too_many_days_with_missing_temperature_data")
-    if (pd.Series(vt).groupby(df.index.month.values).mean() < 0.9).any():
-        must.add(P + "missing_monthly_temperature_data")
-    if "ghi" in df and (df["ghi"].notna().groupby(df.index.month.values).mean() < 0.9).any():
-        must.add(P + "missing_monthly_ghi_data")
+    must, may = ref
     may |= must
     for name in sorted(must - got):
         rec.violation("%s/missing-dq/%s" % (K, name.split(".")[-1]), c, "criterion %s is violated but not reported (reported: %s)" % (name, sorted(x.split('.')[-1] for x in got)))
@@ -441,6 +451,36 @@ def judge_hourly(c, rec):
     wn = set(x.qualified_name for x in data.warnings)
     if (c["tz"] == "UTC") != ("eemeter.data_quality.utc_index" in wn):
         rec.violation(K + "/warning/utc_index", c, "utc_index warning present=%s for zone %s" % ("eemeter.data_quality.utc_index" in wn, c["tz"]))
+    if c["vseed"] % 3 == 0 and not c["no_usage"]:
+        # the frame a data object hands out goes through the class again (a pipeline that stores data.df), as it is and with one
+        # more reading lost on the way: the verdict is still the verdict of the measurements
+        cls = cls + ["refed=1"]
+        for extra in (False, True):
+            fr, raw = data.df.copy(), df.copy()
+            if extra:
+                r_t, r_u = (n // 3) | 1, (2 * n // 3) | 1
+                fr.iloc[r_t, fr.columns.get_loc("temperature")] = np.nan
+                raw.iloc[r_t, raw.columns.get_loc("temperature")] = np.nan
+                fr.iloc[r_u, fr.columns.get_loc("observed")] = np.nan
+                raw.iloc[r_u, raw.columns.get_loc("observed")] = np.nan
+            try:
+                with contextlib.redirect_stdout(io.StringIO()):
+                    again = Cls(fr, is_electricity_data=c["electric"])
+            except Exception as e:
+                bkt = exc_bucket(e)
+                if bkt is None:
+                    raise
+                rec.violation("%s/refed/constructor-raises/%s" % (K, bkt), c, "%s: %s" % (type(e).__name__, short(e, 160)))
+                break
+            got2 = set(w.qualified_name for w in again.disqualification)
+            ref2 = reference(raw)
+            if ref2 is None:
+                continue
+            must2, may2 = ref2
+            if (must2 - got2) or (got2 - may2):
+                rec.violation("%s/refed/verdict-differs%s" % (K, "/one-more-reading-lost" if extra else ""), c, "data.df given back to the class: reported %s, the measurements give %s (first pass reported %s)" % (
+                    sorted(x.split('.')[-1] for x in got2), sorted(x.split('.')[-1] for x in must2), sorted(x.split('.')[-1] for x in got)))
+                break
     k = int(math.floor(0.1 * days))
     near = days in (328, 329, 330, 364, 365, 366) or abs(c["miss_u_days"] - k) <= 1 or abs(c["miss_t_days"] - k) <= 1 or c["month_block"] is not None
     rec.case(c, bool(near or len(must) >= 2), cls + ["ndq=%d" % min(len(got), 3)])
